@@ -141,3 +141,34 @@ def frame_offsets(data, expect_preface):
         ln = (data[pos] << 16) | (data[pos + 1] << 8) | data[pos + 2]
         pos += 9 + ln
     return offs
+
+
+def run_lazy(w, ep, rng):
+    """Re-execute ep's log with the primary chunking, but take output lazily:
+    after every step only a random amount (possibly nothing) is read with
+    data_to_send(amount); everything left is read at the end.  Returns the
+    concatenation of all bytes read, and whether any read returned more than
+    asked for."""
+    e0 = w.eps[ep]
+    e = Endpoint(ep, w.cfg[ep], w.cfg.get('knobs', {}))
+    conn = e.conn
+    out = bytearray()
+    bad_read = False
+    for s in e0.log:
+        try:
+            if s.kind == 'recv':
+                conn.receive_data(s.chunk)
+            else:
+                World._dispatch(conn, s.op, s.args or {})
+        except Exception:  # noqa: BLE001
+            pass
+        r = rng.random()
+        if r < 0.45:
+            continue
+        amt = rng.choice([1, 2, 5, 9, 10, 13, 17, 40, 100, 4096, 16384])
+        b = conn.data_to_send(amt)
+        if len(b) > amt:
+            bad_read = True
+        out += b
+    out += conn.data_to_send()
+    return bytes(out), bad_read
